@@ -951,7 +951,6 @@ func (fc *FnCtx) doCopy(x *ssa.Call) Val {
 	return n
 }
 
-
 // ---------------------------------------------------------------------------------------------------------------
 // Static read sets and determinism of heap-pure functions.
 //
